@@ -272,6 +272,6 @@ SUBS = {"galerkin": Sub(predicate, strategy=cases), "manufactured": Sub(manu_pre
 
 
 def jobs(tier):
-    n1, n2 = (14, 10) if tier == "quick" else (300, 150)
+    n1, n2 = (14, 10) if tier == "quick" else (1800, 900)
     return ([{"sub": "galerkin", "n": n1, "shard": i} for i in range(12)] +
             [{"sub": "manufactured", "n": n2, "shard": i} for i in range(4)])
